@@ -440,7 +440,7 @@ def run_case(case, tier, seed):
 # ---- native tier -----------------------------------------------------------------------------------------
 
 
-def native_blocking(shape, maxdim, merge):
+def native_blocking(shape, maxdim, merge, ignored=None):
     """Real Distributor on a real parameter: tiling, view-ness, row-major order, extents, gradient alignment, update_params."""
     import torch
     from distributed_shampoo.utils.shampoo_distributor import Distributor
@@ -449,7 +449,15 @@ def native_blocking(shape, maxdim, merge):
     for s in shape:
         n *= s
     p = torch.nn.Parameter(torch.arange(n, dtype=torch.float64).reshape(shape))
-    D = Distributor({st.PARAMS: [p], st.MAX_PRECONDITIONER_DIM: maxdim, st.USE_MERGE_DIMS: merge})
+    if ignored is None:
+        D = Distributor({st.PARAMS: [p], st.MAX_PRECONDITIONER_DIM: maxdim, st.USE_MERGE_DIMS: merge})
+    else:
+        # the distributor as the REAL optimizer builds it (full param group, preconditioner config with ignored dimensions): ignoring a dimension
+        # for preconditioning must not change the blocking — every extent stays within max_preconditioner_dim
+        from distributed_shampoo.distributed_shampoo import DistributedShampoo
+        opt = DistributedShampoo([p], lr=0.01, max_preconditioner_dim=maxdim, use_merge_dims=merge, precondition_frequency=1, start_preconditioning_step=1,
+                                 preconditioner_config=st.ShampooPreconditionerConfig(ignored_dims=list(ignored)))
+        D = opt._per_group_state_lists[0][st.DISTRIBUTOR]
     blocks = D.local_blocked_params
     seen = torch.zeros(n, dtype=torch.int64)
     last_first = -1
@@ -568,6 +576,13 @@ def bounded(tier, seed):
             for maxdim in ((1, 2, 3, 5) if tier == "quick" else range(1, 9)):
                 for merge in (True, False):
                     bad = native_blocking(shape, maxdim, merge)
+                    if not bad and len(shape) >= 1:
+                        for ign in ([0], [1], [0, 1]):
+                            bad = native_blocking(shape, maxdim, merge, ignored=ign)
+                            evals += 1
+                            if bad:
+                                bad = f"ignored_dims={ign}: {bad}"
+                                break
                     evals += 1
                     distinct.add((shape, maxdim, merge))
                     if bad:
@@ -611,6 +626,8 @@ def replay_file(doc):
         return bool(bad), f"{rp}: {bad}"
     if rp.get("kind") == "native_blocking":
         bad = native_blocking(tuple(rp["shape"]), rp["maxdim"], rp["merge"])
+        for ign in ([0], [1], [0, 1]):
+            bad = bad or native_blocking(tuple(rp["shape"]), rp["maxdim"], rp["merge"], ignored=ign)
         return bool(bad), f"shape {rp['shape']} max dim {rp['maxdim']} merge {rp['merge']}: {bad}"
     if rp.get("kind") == "merge" and m:
         from distributed_shampoo.utils.shampoo_utils import merge_small_dims
@@ -638,6 +655,13 @@ def replay_file(doc):
                 for maxdim in (1, 2, 3, 4):
                     for merge in (True, False):
                         bad = native_blocking(shape, maxdim, merge)
+                    if not bad and len(shape) >= 1:
+                        for ign in ([0], [1], [0, 1]):
+                            bad = native_blocking(shape, maxdim, merge, ignored=ign)
+                            evals += 1
+                            if bad:
+                                bad = f"ignored_dims={ign}: {bad}"
+                                break
                         if bad:
                             return True, f"shape {shape} max dim {maxdim} merge {merge}: {bad}"
         return False, "native blocking checks pass on all small shapes"
